@@ -14,7 +14,11 @@ Record entry := mkEntry {
 
 Definition process_constraint_req (e : env) (r : req) (d : dist) : entry :=
   mkEntry (dname d)
-          (match rmarker r with Some m => sort_set (mextras e m) | None => [] end)
+          (* extras named by the marker's `extra == ".."` atoms - unless the marker already holds without any extra
+             (`python_version >= "3" or extra == "x"`): then no extra activated the requirement (/repo fix) *)
+          (match rmarker r with
+           | Some m => if meval e m None then [] else sort_set (mextras e m)
+           | None => [] end)
           (rspec r)
           (sort_set (map (fun x => lower (strip x)) (rextras r))).
 
